@@ -206,6 +206,36 @@ class Render:
         return f"Render{self.parts}"
 
 
+class SymChar:
+    """A character known only as a member of a finite set (interp.charsets[cid]); comparisons split the set."""
+    __slots__ = ("cid",)
+
+    def __init__(self, cid: int):
+        self.cid = cid
+
+    def __repr__(self):
+        return f"ch#{self.cid}"
+
+
+class SymStr:
+    """A string whose characters are concrete 1-char strings or SymChars."""
+    __slots__ = ("items",)
+
+    def __init__(self, items):
+        out = []
+        for x in items:
+            if isinstance(x, str):
+                out.extend(list(x))
+            elif isinstance(x, SymStr):
+                out.extend(x.items)
+            else:
+                out.append(x)
+        self.items = tuple(out)
+
+    def __repr__(self):
+        return "SymStr(" + "".join(x if isinstance(x, str) else f"<{x.cid}>" for x in self.items) + ")"
+
+
 class Found:
     """Result of find_type on a partially materialised subtree."""
 
@@ -319,6 +349,7 @@ class Interp:
         self.site = ""
         self.halt_depth: Optional[int] = None
         self.steps = 0
+        self.charsets: Dict[int, frozenset] = {}
         self.retained_mode = 0
 
     # ------------------------------------------------------------------ choice
@@ -716,6 +747,51 @@ class Interp:
         self.ident_diseq.add(pair)
         return False
 
+    # ------------------------------------------------------------------ symbolic characters
+    def new_char(self, universe: frozenset) -> SymChar:
+        c = SymChar(len(self.charsets) + 1)
+        self.charsets[c.cid] = frozenset(universe)
+        return c
+
+    def char_test(self, c: SymChar, pred, label: str) -> bool:
+        cur = self.charsets[c.cid]
+        yes = frozenset(x for x in cur if pred(x))
+        no = cur - yes
+        if yes and no:
+            i = self.choose(2, f"{label}", ["true", "false"])
+            self.charsets[c.cid] = yes if i == 0 else no
+            return i == 0
+        return bool(yes)
+
+    @staticmethod
+    def _as_symstr(v):
+        if isinstance(v, SymStr):
+            return v
+        if isinstance(v, SymChar):
+            return SymStr((v,))
+        if isinstance(v, str):
+            return SymStr(tuple(v))
+        return None
+
+    def str_equal(self, a, b) -> bool:
+        sa, sb = self._as_symstr(a), self._as_symstr(b)
+        if len(sa.items) != len(sb.items):
+            return False
+        for x, y in zip(sa.items, sb.items):
+            if isinstance(x, str) and isinstance(y, str):
+                if x != y:
+                    return False
+            elif isinstance(x, SymChar) and isinstance(y, str):
+                if not self.char_test(x, lambda ch, y=y: ch == y, f"ch{x.cid}=={y!r}"):
+                    return False
+            elif isinstance(y, SymChar) and isinstance(x, str):
+                if not self.char_test(y, lambda ch, x=x: ch == x, f"ch{y.cid}=={x!r}"):
+                    return False
+            else:
+                if x.cid != y.cid:
+                    raise Unsupported("equality between two distinct symbolic characters")
+        return True
+
     # ------------------------------------------------------------------ truthiness / comparison
     def truth(self, v, label: str = "truth") -> bool:
         if v is None or v is _MISSING:
@@ -739,6 +815,10 @@ class Interp:
         if isinstance(v, Dct):
             return len(v.items) > 0
         if isinstance(v, Render):
+            return True
+        if isinstance(v, SymStr):
+            return len(v.items) > 0
+        if isinstance(v, SymChar):
             return True
         if isinstance(v, Found):
             if v.definite:
@@ -777,6 +857,19 @@ class Interp:
         if isinstance(op, (ast.In, ast.NotIn)):
             r = self._contains(b, a)
             return r if isinstance(op, ast.In) else (not r)
+        if isinstance(a, (SymChar, SymStr)) or isinstance(b, (SymChar, SymStr)):
+            import operator as _op
+            fn = {ast.Lt: _op.lt, ast.LtE: _op.le, ast.Gt: _op.gt, ast.GtE: _op.ge}[type(op)]
+            sa, sb = self._as_symstr(a), self._as_symstr(b)
+            if sa is None or sb is None or len(sa.items) != 1 or len(sb.items) != 1:
+                raise Unsupported(f"ordering of symbolic strings {a!r} {b!r} at {self.site}")
+            x, y = sa.items[0], sb.items[0]
+            sym = {ast.Lt: "<", ast.LtE: "<=", ast.Gt: ">", ast.GtE: ">="}[type(op)]
+            if isinstance(x, SymChar) and isinstance(y, str):
+                return self.char_test(x, lambda ch: fn(ch, y), f"ch{x.cid}{sym}{y!r}")
+            if isinstance(y, SymChar) and isinstance(x, str):
+                return self.char_test(y, lambda ch: fn(x, ch), f"{x!r}{sym}ch{y.cid}")
+            raise Unsupported("ordering between two symbolic characters")
         ta, tb = self.to_term(a), self.to_term(b)
         if ta is not None and tb is not None:
             d = ("sub", ta, tb)
@@ -810,6 +903,10 @@ class Interp:
     def _equal(self, a, b) -> bool:
         if a is None or b is None:
             return self._identical(a, b)
+        if isinstance(a, (SymChar, SymStr)) or isinstance(b, (SymChar, SymStr)):
+            if self._as_symstr(a) is None or self._as_symstr(b) is None:
+                return False
+            return self.str_equal(a, b)
         if isinstance(a, Node) or isinstance(b, Node):
             return isinstance(a, Node) and isinstance(b, Node) and a.cid == b.cid
         if isinstance(a, Ident) and isinstance(b, Ident):
@@ -847,6 +944,11 @@ class Interp:
             return any(self._equal(x, y) for y in container.items)
         if isinstance(container, str) and isinstance(x, str):
             return x in container
+        if isinstance(container, str) and isinstance(x, (SymChar, SymStr)):
+            sx = self._as_symstr(x)
+            if len(sx.items) == 1 and isinstance(sx.items[0], SymChar):
+                return self.char_test(sx.items[0], lambda ch: ch in container, f"ch{sx.items[0].cid} in {container!r}")
+            raise Unsupported("substring test on symbolic strings")
         if isinstance(container, Dct):
             return any(self._equal(x, k) for k in container.items)
         if isinstance(container, Opaque) or isinstance(x, Opaque):
@@ -1033,6 +1135,10 @@ class Interp:
                 return len(v.items)
             if isinstance(v, str):
                 return len(v)
+            if isinstance(v, SymStr):
+                return len(v.items)
+            if isinstance(v, SymChar):
+                return 1
             if isinstance(v, Dct):
                 return len(v.items)
             if isinstance(v, Found):
@@ -1049,6 +1155,8 @@ class Interp:
         if name == "print":
             return None
         if name == "str":
+            if args and isinstance(args[0], (SymStr, SymChar)):
+                return self._as_symstr(args[0])
             return self.to_render(args[0]) if args else ""
         if name == "repr":
             return Opaque("repr")
@@ -1067,6 +1175,8 @@ class Interp:
                 return Lst(list(v.items))
             if isinstance(v, str):
                 return Lst(list(v))
+            if isinstance(v, (SymStr, SymChar)):
+                return Lst(list(self._as_symstr(v).items))
             if isinstance(v, Dct):
                 return Lst(list(v.items))
             raise Unsupported(f"list({v!r}) at {self.site}")
@@ -1414,6 +1524,8 @@ class Interp:
             return Render((("node", cell.cid, inner),))
         if isinstance(v, Opaque):
             return Render((("opaque", v.tag),))
+        if isinstance(v, (SymStr, SymChar)):
+            return Render((("opaque", repr(v)),))
         if isinstance(v, (Rec, Cls, Tup, Lst)):
             return Render((("opaque", repr(v)),))
         raise Unsupported(f"str() of {v!r} at {self.site}")
@@ -1484,6 +1596,8 @@ class Interp:
                 items = list(it.items)
             elif isinstance(it, str):
                 items = list(it)
+            elif isinstance(it, (SymStr, SymChar)):
+                items = list(self._as_symstr(it).items)
             else:
                 raise Unsupported(f"for over {it!r} at {self.site}")
             broke = False
@@ -1728,6 +1842,10 @@ class Interp:
                         return a & b
             except ZeroDivisionError:
                 raise AbsRaise("ZeroDivisionError", self.site)
+        if isinstance(op, ast.Add) and (isinstance(a, (SymStr, SymChar)) or isinstance(b, (SymStr, SymChar))):
+            sa, sb = self._as_symstr(a), self._as_symstr(b)
+            if sa is not None and sb is not None:
+                return SymStr(sa.items + sb.items)
         if isinstance(op, ast.Add) and isinstance(a, (str, Render)) and isinstance(b, (str, Render)):
             return self.concat(a, b)
         if isinstance(op, ast.Add) and isinstance(a, Lst) and isinstance(b, Lst):
@@ -1829,6 +1947,8 @@ class Interp:
                 return Lst(list(o.items)[lo:hi])
             if isinstance(o, str):
                 return o[lo:hi]
+            if isinstance(o, SymStr) and all(x is None or isinstance(x, int) for x in (lo, hi)):
+                return SymStr(o.items[lo:hi])
             raise Unsupported(f"slice of {o!r} at {self.site}")
         k = self.eval(e.slice, env)
         if isinstance(o, (Lst, Tup)) and isinstance(k, int):
@@ -1839,6 +1959,11 @@ class Interp:
         if isinstance(o, str) and isinstance(k, int):
             try:
                 return o[k]
+            except IndexError:
+                raise AbsRaise("IndexError", self.site, "string index")
+        if isinstance(o, SymStr) and isinstance(k, int):
+            try:
+                return o.items[k]
             except IndexError:
                 raise AbsRaise("IndexError", self.site, "string index")
         if isinstance(o, Dct):
